@@ -102,6 +102,7 @@ def month_reset(exp, b, pmoy):
 def check_case(ctx, c):
     from dateparser.date import DateDataParser
 
+    ctx.remember(check_case, c)
     b = parse_iso(c["base"])
     pref, kind, s = c["pref"], c["kind"], c["s"]
     st = {"RELATIVE_BASE": b, "PREFER_DATES_FROM": pref, "TIMEZONE": c["zone"]}
@@ -242,6 +243,7 @@ def run_shard(ctx, desc):
                 d += timedelta(days=1)
                 n += 1
             ctx.count("everyday_days", n)
+        ctx.reask()
     finally:
         ac.stop()
     for k, v in ac.counts.items():
